@@ -17,6 +17,7 @@ var checks = map[string]func(tier string) int{
 	"C09": props.CheckC09,
 	"C10": props.CheckC10,
 	"C11": props.CheckC11,
+	"C12": props.CheckC12,
 	"C13": props.CheckC13,
 }
 
